@@ -195,4 +195,185 @@ theorem dispatch_rvm (c : Model.X86.Ctx) (row : Row) (options : BitVec 32) (t0 t
         options (packRegVvvvv i0 i1) (r32 i2) 0 0 := by
   rcases henc with h | h <;> simp [dispatch, h, sig3, Op.kind, Op.id]
 
+/-! ### the other shapes: [reg, rm] (VexRm / VexRm_Lx), [reg, vvvv, rm, imm8] (VexRvmi / VexRvmi_Lx), [reg, rm, imm8] (VexRmi / VexRmi_Lx) -/
+
+theorem alignOps2 (osz : Nat) (f0 f2 : FormOp) (o0 o2 : Operand)
+    (h0 : formOpMatches osz f0 o0 = true) (h2 : formOpMatches osz f2 o2 = true) :
+    alignOps osz [f0, f2] [o0, o2] = some [(f0, some o0), (f2, some o2)] := by
+  simp [alignOps, h0, h2]
+
+theorem alignOps3i (osz : Nat) (f0 f2 f3 : FormOp) (o0 o2 o3 : Operand)
+    (h0 : formOpMatches osz f0 o0 = true) (h2 : formOpMatches osz f2 o2 = true) (h3 : formOpMatches osz f3 o3 = true) :
+    alignOps osz [f0, f2, f3] [o0, o2, o3] = some [(f0, some o0), (f2, some o2), (f3, some o3)] := by
+  simp [alignOps, h0, h2, h3]
+
+theorem alignOps4 (osz : Nat) (f0 f1 f2 f3 : FormOp) (o0 o1 o2 o3 : Operand)
+    (h0 : formOpMatches osz f0 o0 = true) (h1 : formOpMatches osz f1 o1 = true) (h2 : formOpMatches osz f2 o2 = true)
+    (h3 : formOpMatches osz f3 o3 = true) :
+    alignOps osz [f0, f1, f2, f3] [o0, o1, o2, o3] = some [(f0, some o0), (f1, some o1), (f2, some o2), (f3, some o3)] := by
+  simp [alignOps, h0, h1, h2, h3]
+
+def shapeOk2 (r : Rule) (f0 f2 : FormOp) (k0 k2 : RegKind) : Bool :=
+  plainKind k0 && (plainKind k2 && (noFix f0 && (noFix f2 &&
+  (formOpMatches r.oszEff f0 (.reg k0 0) && formOpMatches r.oszEff f2 (.reg k2 0)))))
+
+theorem shapeOk2_spec (r : Rule) (f0 f2 : FormOp) (k0 k2 : RegKind) (h : shapeOk2 r f0 f2 k0 k2 = true) :
+    PlainKind k0 ∧ PlainKind k2 ∧ (∀ i0, formOpMatches r.oszEff f0 (.reg k0 i0) = true) ∧ (∀ i2, formOpMatches r.oszEff f2 (.reg k2 i2) = true) := by
+  simp only [shapeOk2, Bool.and_eq_true] at h
+  obtain ⟨p0, p2, n0, n2, m0, m2⟩ := h
+  exact ⟨plainKind_spec _ p0, plainKind_spec _ p2, fun i => by rw [formOpMatches_reg_nofix _ _ _ _ n0]; exact m0,
+    fun i => by rw [formOpMatches_reg_nofix _ _ _ _ n2]; exact m2⟩
+
+theorem shapeOk3_specB (r : Rule) (f0 f1 f2 : FormOp) (k0 k1 k2 : RegKind) (h : shapeOk3 r f0 f1 f2 k0 k1 k2 = true) :
+    PlainKind k0 ∧ PlainKind k1 ∧ PlainKind k2 ∧ (∀ i, formOpMatches r.oszEff f0 (.reg k0 i) = true) ∧
+      (∀ i, formOpMatches r.oszEff f1 (.reg k1 i) = true) ∧ (∀ i, formOpMatches r.oszEff f2 (.reg k2 i) = true) := by
+  simp only [shapeOk3, Bool.and_eq_true] at h
+  obtain ⟨p0, p1, p2, n0, n1, n2, m0, m1, m2⟩ := h
+  exact ⟨plainKind_spec _ p0, plainKind_spec _ p1, plainKind_spec _ p2, fun i => by rw [formOpMatches_reg_nofix _ _ _ _ n0]; exact m0,
+    fun i => by rw [formOpMatches_reg_nofix _ _ _ _ n1]; exact m1, fun i => by rw [formOpMatches_reg_nofix _ _ _ _ n2]; exact m2⟩
+
+def entryOkRm (e : Entry) : Bool :=
+  match e.rule.ops, e.kinds with
+  | [f0, f2], [k0, k2] =>
+    (e.enc == 0x68 || e.enc == 0x6B) && (vexRuleOk e.rule 0 && (rowAgreeOk e.rule (finalOp e 0x6B) && (e.iflags &&& 0x1000000#32 == 0#32 &&
+    (f0.role == .reg && (f2.role == .rm && shapeOk2 e.rule f0 f2 k0 k2)))))
+  | _, _ => false
+
+def entryOkRvmi (e : Entry) : Bool :=
+  match e.rule.ops, e.kinds with
+  | [f0, f1, f2, f3], [k0, k1, k2] =>
+    (e.enc == 0x7A || e.enc == 0x7C) && (vexRuleOk e.rule 1 && (rowAgreeOk e.rule (finalOp e 0x7C) && (e.iflags &&& 0x1000000#32 == 0#32 &&
+    (f0.role == .reg && (f1.role == .vvvv && (f2.role == .rm && (f3.role == .imm && (immBitsOf f3 == 8 && shapeOk3 e.rule f0 f1 f2 k0 k1 k2))))))))
+  | _, _ => false
+
+def entryOkRmi (e : Entry) : Bool :=
+  match e.rule.ops, e.kinds with
+  | [f0, f2, f3], [k0, k2] =>
+    (e.enc == 0x6F || e.enc == 0x71) && (vexRuleOk e.rule 1 && (rowAgreeOk e.rule (finalOp e 0x71) && (e.iflags &&& 0x1000000#32 == 0#32 &&
+    (f0.role == .reg && (f2.role == .rm && (f3.role == .imm && (immBitsOf f3 == 8 && shapeOk2 e.rule f0 f2 k0 k2)))))))
+  | _, _ => false
+
+theorem rm_entries_ok : rmChunks.all (fun c => c.all entryOkRm) = true := by decide +kernel
+theorem rvmi_entries_ok : rvmiChunks.all (fun c => c.all entryOkRvmi) = true := by decide +kernel
+theorem rmi_entries_ok : rmiChunks.all (fun c => c.all entryOkRmi) = true := by decide +kernel
+
+theorem mem_chunks_ok {chunks : List (List Entry)} {ok : Entry → Bool} (h : chunks.all (fun c => c.all ok) = true)
+    (e : Entry) (ch : List Entry) (hch : ch ∈ chunks) (he : e ∈ ch) : ok e = true := by
+  rw [List.all_eq_true] at h
+  have h2 := h ch hch
+  rw [List.all_eq_true] at h2
+  exact h2 e he
+
+/-- **front_cls_correct, classes VexRm and VexRm_Lx** (EVEX forms with numbers 0..31 when EVEX is needed, VEX forms with numbers 0..15). -/
+theorem front_cls_correct_rm (e : Entry) (ch : List Entry) (hch : ch ∈ rmChunks) (he : e ∈ ch)
+    (c : Model.X86.Ctx) (ctx : Spec.X86.Ctx) (reg rm : BitVec 32)
+    (hpe : c.preferEvex = false) (hk : c.extraId = 0#32) (hm64 : ctx.mode64 = true)
+    (hids : (e.rule.space = 2 ∧ reg < 32#32 ∧ rm < 32#32 ∧ xR (finalOp e 0x6B) 0#32 reg 0#32 rm 0#32 &&& 0x00D78150#32 ≠ 0#32) ∨
+            (e.rule.space = 1 ∧ reg < 16#32 ∧ rm < 16#32)) :
+    ∃ bytes k0 k2, e.kinds = [k0, k2] ∧
+      emitVexEvexR c (finalOp e 0x6B) 0#32 (r32 reg.toNat) (r32 rm.toNat) 0 0 = .ok bytes ∧
+      formOk ctx e.rule [.reg k0 reg.toNat, .reg k2 rm.toNat] {} bytes = true := by
+  have hok := mem_chunks_ok rm_entries_ok e ch hch he
+  unfold entryOkRm at hok
+  split at hok
+  · rename_i f0 f2 k0 k2 hops hkinds
+    simp only [Bool.and_eq_true, Bool.or_eq_true, beq_iff_eq] at hok
+    obtain ⟨-, hR, hA, -, r0, r2, hS⟩ := hok
+    obtain ⟨R, -⟩ := vexRuleOk_spec _ _ hR
+    obtain ⟨A, hxop, hvx⟩ := rowAgreeOk_spec _ _ hA
+    obtain ⟨p0, p2, m0, m2⟩ := shapeOk2_spec _ _ _ _ _ hS
+    have hal : ∀ i0 i2, alignOps e.rule.oszEff e.rule.ops [.reg k0 i0, .reg k2 i2] = some [(f0, some (.reg k0 i0)), (f2, some (.reg k2 i2))] := by
+      intro i0 i2; rw [hops]; exact alignOps2 _ _ _ _ _ (m0 i0) (m2 i2)
+    have e0 : reg + ((0#32 : BitVec 32) <<< 7) = reg := by bv_decide
+    rcases hids with ⟨hsp, hr, hm, hev⟩ | ⟨hsp, hr, hm⟩
+    · rw [hsp] at A
+      obtain ⟨bytes, hb, hf⟩ := vexR_rm_formOk_evex c ctx e.rule (finalOp e 0x6B) reg rm k0 k2 f0 f2 hpe hk hm64 hr hm hxop hev p0 p2 R hsp A r0 r2 (hal _ _)
+      refine ⟨bytes, k0, k2, hkinds, ?_, hf⟩
+      rw [e0] at hb
+      simpa [r32] using hb
+    · obtain ⟨hll, hmm⟩ := hvx hsp
+      have A' : RowAgree e.rule (finalOp e 0x6B) false := by rw [hsp] at A; exact A
+      obtain ⟨bytes, hb, hf⟩ := vexR_rm_formOk_vex c ctx e.rule (finalOp e 0x6B) reg rm k0 k2 f0 f2 hpe hk hm64 hr hm hxop hll hmm p0 p2 R hsp A' r0 r2 (hal _ _)
+      refine ⟨bytes, k0, k2, hkinds, ?_, hf⟩
+      rw [e0] at hb
+      simpa [r32] using hb
+  · simp at hok
+
+/-- **front_cls_correct, classes VexRvmi and VexRvmi_Lx**: for every 8-bit immediate the form admits. -/
+theorem front_cls_correct_rvmi (e : Entry) (ch : List Entry) (hch : ch ∈ rvmiChunks) (he : e ∈ ch)
+    (c : Model.X86.Ctx) (ctx : Spec.X86.Ctx) (reg vvvvv rm : BitVec 32) (imm : BitVec 64)
+    (hpe : c.preferEvex = false) (hk : c.extraId = 0#32) (hm64 : ctx.mode64 = true)
+    (himm : ∀ f3, e.rule.ops[3]? = some f3 → formOpMatches e.rule.oszEff f3 (.imm imm) = true)
+    (hids : (e.rule.space = 2 ∧ reg < 32#32 ∧ vvvvv < 32#32 ∧ rm < 32#32 ∧ xR (finalOp e 0x7C) 0#32 reg vvvvv rm 0#32 &&& 0x00D78150#32 ≠ 0#32) ∨
+            (e.rule.space = 1 ∧ reg < 16#32 ∧ vvvvv < 16#32 ∧ rm < 16#32)) :
+    ∃ bytes k0 k1 k2, e.kinds = [k0, k1, k2] ∧
+      emitVexEvexR c (finalOp e 0x7C) 0#32 (packRegVvvvv reg.toNat vvvvv.toNat) (r32 rm.toNat) imm 1 = .ok bytes ∧
+      formOk ctx e.rule [.reg k0 reg.toNat, .reg k1 vvvvv.toNat, .reg k2 rm.toNat, .imm imm] {} bytes = true := by
+  have hok := mem_chunks_ok rvmi_entries_ok e ch hch he
+  unfold entryOkRvmi at hok
+  split at hok
+  · rename_i f0 f1 f2 f3 k0 k1 k2 hops hkinds
+    simp only [Bool.and_eq_true, Bool.or_eq_true, beq_iff_eq] at hok
+    obtain ⟨-, hR, hA, -, r0, r1, r2, r3, hib, hS⟩ := hok
+    obtain ⟨R, -⟩ := vexRuleOk_spec _ _ hR
+    obtain ⟨A, hxop, hvx⟩ := rowAgreeOk_spec _ _ hA
+    obtain ⟨p0, p1, p2, m0, m1, m2⟩ := shapeOk3_specB _ _ _ _ _ _ _ hS
+    have m3 : formOpMatches e.rule.oszEff f3 (.imm imm) = true := himm f3 (by rw [hops]; rfl)
+    have hal : ∀ i0 i1 i2, alignOps e.rule.oszEff e.rule.ops [.reg k0 i0, .reg k1 i1, .reg k2 i2, .imm imm] =
+        some [(f0, some (.reg k0 i0)), (f1, some (.reg k1 i1)), (f2, some (.reg k2 i2)), (f3, some (.imm imm))] := by
+      intro i0 i1 i2; rw [hops]; exact alignOps4 _ _ _ _ _ _ _ _ _ (m0 i0) (m1 i1) (m2 i2) m3
+    rcases hids with ⟨hsp, hr, hv, hm, hev⟩ | ⟨hsp, hr, hv, hm⟩
+    · rw [hsp] at A
+      obtain ⟨bytes, hb, hf⟩ := vexR_rvmi_formOk_evex c ctx e.rule (finalOp e 0x7C) reg vvvvv rm k0 k1 k2 f0 f1 f2 hpe hk hm64 hr hv hm hxop hev
+        p0 p1 p2 R f3 imm r3 hib hsp A r0 r1 r2 (hal _ _ _)
+      refine ⟨bytes, k0, k1, k2, hkinds, ?_, hf⟩
+      rw [packRegVvvvv_eq reg vvvvv hr hv]
+      simpa [r32] using hb
+    · obtain ⟨hll, hmm⟩ := hvx hsp
+      have A' : RowAgree e.rule (finalOp e 0x7C) false := by rw [hsp] at A; exact A
+      obtain ⟨bytes, hb, hf⟩ := vexR_rvmi_formOk_vex c ctx e.rule (finalOp e 0x7C) reg vvvvv rm k0 k1 k2 f0 f1 f2 hpe hk hm64 hr hv hm hxop hll hmm
+        p0 p1 p2 R f3 imm r3 hib hsp A' r0 r1 r2 (hal _ _ _)
+      refine ⟨bytes, k0, k1, k2, hkinds, ?_, hf⟩
+      rw [packRegVvvvv_eq reg vvvvv (by bv_decide) (by bv_decide)]
+      simpa [r32] using hb
+  · simp at hok
+
+/-- **front_cls_correct, classes VexRmi and VexRmi_Lx**. -/
+theorem front_cls_correct_rmi (e : Entry) (ch : List Entry) (hch : ch ∈ rmiChunks) (he : e ∈ ch)
+    (c : Model.X86.Ctx) (ctx : Spec.X86.Ctx) (reg rm : BitVec 32) (imm : BitVec 64)
+    (hpe : c.preferEvex = false) (hk : c.extraId = 0#32) (hm64 : ctx.mode64 = true)
+    (himm : ∀ f3, e.rule.ops[2]? = some f3 → formOpMatches e.rule.oszEff f3 (.imm imm) = true)
+    (hids : (e.rule.space = 2 ∧ reg < 32#32 ∧ rm < 32#32 ∧ xR (finalOp e 0x71) 0#32 reg 0#32 rm 0#32 &&& 0x00D78150#32 ≠ 0#32) ∨
+            (e.rule.space = 1 ∧ reg < 16#32 ∧ rm < 16#32)) :
+    ∃ bytes k0 k2, e.kinds = [k0, k2] ∧
+      emitVexEvexR c (finalOp e 0x71) 0#32 (r32 reg.toNat) (r32 rm.toNat) imm 1 = .ok bytes ∧
+      formOk ctx e.rule [.reg k0 reg.toNat, .reg k2 rm.toNat, .imm imm] {} bytes = true := by
+  have hok := mem_chunks_ok rmi_entries_ok e ch hch he
+  unfold entryOkRmi at hok
+  split at hok
+  · rename_i f0 f2 f3 k0 k2 hops hkinds
+    simp only [Bool.and_eq_true, Bool.or_eq_true, beq_iff_eq] at hok
+    obtain ⟨-, hR, hA, -, r0, r2, r3, hib, hS⟩ := hok
+    obtain ⟨R, -⟩ := vexRuleOk_spec _ _ hR
+    obtain ⟨A, hxop, hvx⟩ := rowAgreeOk_spec _ _ hA
+    obtain ⟨p0, p2, m0, m2⟩ := shapeOk2_spec _ _ _ _ _ hS
+    have m3 : formOpMatches e.rule.oszEff f3 (.imm imm) = true := himm f3 (by rw [hops]; rfl)
+    have hal : ∀ i0 i2, alignOps e.rule.oszEff e.rule.ops [.reg k0 i0, .reg k2 i2, .imm imm] =
+        some [(f0, some (.reg k0 i0)), (f2, some (.reg k2 i2)), (f3, some (.imm imm))] := by
+      intro i0 i2; rw [hops]; exact alignOps3i _ _ _ _ _ _ _ (m0 i0) (m2 i2) m3
+    have e0 : reg + ((0#32 : BitVec 32) <<< 7) = reg := by bv_decide
+    rcases hids with ⟨hsp, hr, hm, hev⟩ | ⟨hsp, hr, hm⟩
+    · rw [hsp] at A
+      obtain ⟨bytes, hb, hf⟩ := vexR_rmi_formOk_evex c ctx e.rule (finalOp e 0x71) reg rm k0 k2 f0 f2 hpe hk hm64 hr hm hxop hev p0 p2 R f3 imm r3 hib hsp A r0 r2 (hal _ _)
+      refine ⟨bytes, k0, k2, hkinds, ?_, hf⟩
+      rw [e0] at hb
+      simpa [r32] using hb
+    · obtain ⟨hll, hmm⟩ := hvx hsp
+      have A' : RowAgree e.rule (finalOp e 0x71) false := by rw [hsp] at A; exact A
+      obtain ⟨bytes, hb, hf⟩ := vexR_rmi_formOk_vex c ctx e.rule (finalOp e 0x71) reg rm k0 k2 f0 f2 hpe hk hm64 hr hm hxop hll hmm p0 p2 R f3 imm r3 hib hsp A' r0 r2 (hal _ _)
+      refine ⟨bytes, k0, k2, hkinds, ?_, hf⟩
+      rw [e0] at hb
+      simpa [r32] using hb
+  · simp at hok
+
 end AsmjitVerif.Props.C01
